@@ -248,6 +248,7 @@ impl Exec for RingN {
     }
     fn take_panics(&mut self) -> Vec<String> {
         let mut p = std::mem::take(&mut self.panics);
+        p.extend(stack::take_probe_panics());
         if self.livelock {
             self.livelock = false;
             p.push("LIVELOCK: the server did not reach quiescence within the poll budget at harness:0".to_string());
